@@ -237,7 +237,8 @@ def check(prog: Program, tier: str) -> Result:
               "a deletion that is widened by a regex match behind it must not run over a line break: the line it would reach was never tested for an ignore comment")
     _r20_8(prog, res)
     _r20_12(prog, res)
-    res.floors.update({"R20.8": 1, "R20.1": 10, "R20.2": 1, "R20.3": 6, "R20.5": 3, "R20.6": 1, "R20.7": 1, "R20.10": 1, "R20.11": 1})
+    _r20_13(prog, res)
+    res.floors.update({"R20.8": 1, "R20.1": 10, "R20.2": 1, "R20.3": 6, "R20.5": 3, "R20.6": 1, "R20.7": 1, "R20.10": 1, "R20.11": 1, "R20.13": 3})
     return res
 
 
@@ -446,6 +447,38 @@ def _r20_8(prog: Program, res: Result) -> None:
 
 
 # ------------------------------------------------------------------------------------------------ R20.12
+def _r20_13(prog: Program, res: Result) -> None:
+    """The layout stages of format_code (tab expansion, trailing blanks) edit the text of the whole module through a wrapper that calls
+    the stage it is given on the text it is given and keeps the result when the syntax tree is kept.  A line that carries an ignore comment
+    is "carried over verbatim" only if the wrapper (or the stage) looks for such lines and puts them back.  Instance: every call, in
+    format_code, of a function that applies a callable PARAMETER to a text parameter; obligation: an ignore-comment test
+    (`has_ignore_comment`, the opt-out pattern) is reachable from that wrapper."""
+    from ..callgraph import CallGraph
+    fc = prog.funcs.get(("main", "format_code"))
+    if fc is None:
+        raise AnalysisError("anchor main.format_code not found")
+    cg = CallGraph(prog)
+    n = 0
+    for c in prog.calls_in(fc):
+        r = prog.resolve_call(c.func, fc.mod, fc)
+        if not (r and r[0] == "fn"):
+            continue
+        w = r[1]
+        params = set(w.posparams)
+        applies = [x for x in prog.calls_in(w) if isinstance(x.func, ast.Name) and x.func.id in params and x.args and isinstance(x.args[0], ast.Name) and x.args[0].id in params]
+        if not applies:
+            continue
+        n += 1
+        reach = cg.reachable([w.key])
+        aware = any(k[1].split(".")[-1] == "has_ignore_comment" for k in reach) or "ignore" in norm(w.node).lower().replace("ignore_", "")
+        res.decide(aware, "R20.13", fc.loc(c), fc.fq, f"{short(c, 90)} # a stage that edits the text of the whole module",
+                   "the wrapper looks for lines with an ignore comment" if aware else
+                   f"`{w.name}` applies the stage to every line and keeps the result when the syntax tree is kept: a line with `# pyrefact: ignore` has its tabs expanded and the "
+                   "blanks behind the comment removed - it is not carried over verbatim")
+    if n == 0:
+        res.ok("R20.13", fc.loc(), fc.fq, "whole-text stages applied through a wrapper", "none", trivial=True)
+
+
 def _r20_12(prog: Program, res: Result) -> None:
     """A text that is taken apart into lines WITHOUT their line breaks and put together again with a literal "\\n" has new line
     ends everywhere: in a file with \\r\\n every line is rewritten, the ones carrying `# pyrefact: ignore` included (and a
@@ -989,6 +1022,11 @@ def _whitespace_only(prog, fn, pa, node, bounds: set) -> bool:
 from ..selftest import Variant  # noqa: E402
 
 VARIANTS = [
+    Variant("layout-wrapper-puts-annotated-lines-back", "REPAIRED", "main",
+            "    new_source = stage(source)\n    if core.keeps_syntax_tree(source, new_source):\n        return new_source\n",
+            "    new_source = stage(source)\n    old_lines, new_lines = source.splitlines(keepends=True), new_source.splitlines(keepends=True)\n    if len(old_lines) == len(new_lines):\n        new_source = \"\".join(old if core.has_ignore_comment(source, old) else new for old, new in zip(old_lines, new_lines))\n    if core.keeps_syntax_tree(source, new_source):\n        return new_source\n", "R20.13"),
+    Variant("fourth-whole-text-stage", "FIRE", "main",
+            "    source = _apply_layout_stage(rmspace.format_str, source)\n    source = fixes.fix_too_many_blank_lines(source)\n", "    source = _apply_layout_stage(rmspace.format_str, source)\n    source = _apply_layout_stage(str.rstrip, source)\n    source = fixes.fix_too_many_blank_lines(source)\n", "R20.13"),
     Variant("lines-joined-with-a-line-break-of-their-own-choosing", "FIRE", "fixes", "    lines = list(core.split_lines(source))\n", "    lines = [line.rstrip(\"\\r\\n\") for line in core.split_lines(source)]\n", "R20.12",
             extra=[("fixes", "    new_source = \"\".join(lines)\n", "    new_source = \"\\n\".join(lines) + \"\\n\"\n")]),
     Variant("direct-editor-claims-its-rewrites-are-scheduled", "FIRE", "processing", "        new_source = _do_rewrite(new_source, rewrite)\n", "        new_source = _do_rewrite(new_source, rewrite, scheduled=True)\n", "R20.3"),
@@ -1052,7 +1090,7 @@ VARIANTS = [
 
 META = {
     "design_ref": "DESIGN.md section 3, C20",
-    "technique": "path-condition dominance (skip-file test, ignore-comment guards on text splices) + regex-AST sibling cross-check + text-provenance dataflow; adopted scheduler (C10 R10.6) and write-guard (C03 R3.2) clauses; mandatory-factor analysis of substring pre-filters (regex AST); scheduled-flag idiom traced to the scheduler; adopted overlap predicate (C10 R10.0) and widened-deletion rule (C03 R3.9)",
+    "technique": "path-condition dominance (skip-file test, ignore-comment guards on text splices) + regex-AST sibling cross-check + text-provenance dataflow; adopted scheduler (C10 R10.6) and write-guard (C03 R3.2) clauses; mandatory-factor analysis of substring pre-filters (regex AST); scheduled-flag idiom traced to the scheduler; adopted overlap predicate (C10 R10.0) and widened-deletion rule (C03 R3.9); call-graph reachability of an ignore-comment test from the wrappers of whole-text stages",
     "level_text": ("Decides on the current source that the skip-file test dominates all processing of the unmodified "
                    "input and returns it unchanged, that the two opt-out grammars agree, that has_ignore_comment has the "
                    "shape 'True iff some line overlapping the range matches', and that every position-based rebuild of "
